@@ -1,4 +1,4 @@
-import DepsDev.Proofs.C11Set
+import DepsDev.Proofs.C11ParseConstraint
 import DepsDev.Props.C10
 
 /-!
@@ -11,21 +11,24 @@ prerelease-inclusive matching, matches exactly the same versions as the original
 
 What is here:
 
-* the full statement `SetRoundTripFull s` (over everything `ParseConstraint` accepts);
-* `set_roundtrip_partial`: for the SemVer-family systems (the five of the property, and
-  Composer) the three clauses hold for **every** set that is a non-empty list of well-formed
-  spans (`WellFormedSet`): empty spans, unit spans on a bound, vector spans `[a:b]`, `(a:b)`,
-  … whose bounds are AST images — the upper bound possibly with '∞' components, the lower
-  bound e.g. the minimum version `0.0.0-0`; numbers fewer than three are re-read zero-padded,
-  NuGet identifiers lower-cased, and matching cannot tell the difference. All sets, no size
-  bound, all versions `v` (of any system);
-* `ConstraintSetTie s`: "the set of every accepted constraint is such a list" is stated, NOT
-  proved (it is an invariant of `opVersionToSpan`/`newSpan`/`canon`): for sets produced by
-  `ParseConstraint` the property rests on the differential correspondence and the round-trip
-  oracle of the harness; `set_roundtrip_of_tie` shows how the two combine;
-* `zero_set_not_roundtrip`: the hypothesis "non-empty span list" is necessary (the zero `Set{}`
-  prints `{}` which reads back as `{<empty>}`); `ParseConstraint` never returns it with
-  `nil` error in the harness's runs.
+* the full statement `SetRoundTripFull s` (over everything `ParseConstraint` accepts) and its
+  two refutations, both found while proving and confirmed on the Go code:
+  `saturated_lower_bound_not_roundtrip` (a `>` operand ending in 2^63-2 saturates the lower
+  bound to '∞', which `parseSet` rejects; finding F-C11-satmin, hypothesis `FiniteLowerBounds`)
+  and `nuget_zero_fourth_not_roundtrip` (NuGet `a.b.c.*` leaves a zero fourth number that the
+  parser drops, so the text is not reproduced; finding F-C11-nuget4zero, hypothesis `NoZeroFourth`);
+* **`set_roundtrip`**: for the SemVer-family systems (the five of the property, and Composer),
+  for every constraint `ParseConstraint` accepts outside these two classes, the three clauses
+  of the property — all constraints, all versions `v`, no size bound;
+* how it is obtained: `set_roundtrip_partial` (the printer/parser inverse on every non-empty
+  list of well-formed spans: empty spans, unit spans, vector spans with any brackets, bounds =
+  AST images, '∞' on the upper side, `0.0.0-0`, short bounds re-read zero-padded, NuGet
+  lower-casing and floating labels) and `constraint_set_tie` (an invariant of the whole
+  constraint parser — `value`, `setRange`, `andList`, `orList`, `opVersionToSpan`, `newSpan`,
+  `canon`, `Intersect`, `excludeToSpans` — : it only ever builds such lists, and never the
+  zero `Set{}` on success);
+* `zero_set_not_roundtrip`: the zero `Set{}` prints `{}` which reads back as `{<empty>}`;
+  by `constraint_set_tie` it is never the set of an accepted constraint.
 -/
 namespace DepsDev.Props.C11
 
@@ -77,7 +80,7 @@ abbrev WellFormedSpan (s : System) (sp : Span) : Prop := SpanOk s sp
 /-- A non-empty list of well-formed spans. -/
 def WellFormedSet (s : System) (S : VSet) : Prop := S.span ≠ [] ∧ ∀ sp ∈ S.span, WellFormedSpan s sp
 
-/-- Stated, not proved: what `ParseConstraint` builds is a well-formed set, unless a lower
+/-- What `ParseConstraint` builds is a well-formed set (proved below: `constraint_set_tie`), unless a lower
 bound was saturated to '∞' (`FiniteLowerBounds`, finding F-C11-satmin below) or a NuGet bound has
 a zero fourth number (`NoZeroFourth`, finding F-C11-nuget4zero below). -/
 def ConstraintSetTie (s : System) : Prop :=
@@ -119,6 +122,89 @@ theorem vector_span_roundtrip (s : System) (hs : C10.IsGeneric s) (a b : Version
 theorem set_roundtrip_of_tie (s : System) (hs : C10.IsGeneric s) (tie : ConstraintSetTie s) :
     SetRoundTripStated s :=
   fun b c hp hf hz => set_roundtrip_partial s hs c.set (tie b c hp hf hz)
+
+/-- A bound satisfying the parser's invariant, without '∞' where that matters and without a
+NuGet zero fourth number, is a bound of the theorem. -/
+theorem bv_isBound (s : System) (ai : Bool) (v : Version) (h : BV s v)
+    (hfin : ai = false → (!v.num.any (· == infinity)) = true)
+    (hz : s = .nuget → (!(v.num.length == 4 && v.num[3]? == some 0)) = true) : IsBound s ai v := by
+  refine ⟨h.sys, h.ext, h.len, ?_, ?_, h.pre⟩
+  · intro (x : Int) hx
+    refine ⟨h.nowild x hx, ?_⟩
+    have hle : (x : Int) ≤ 9223372036854775807 := (h.num x hx).2
+    cases ai with
+    | true =>
+      by_cases hlt : x < 9223372036854775807
+      · exact Or.inl hlt
+      · exact Or.inr ⟨rfl, by omega⟩
+    | false =>
+      left
+      have := hfin rfl
+      simp only [Bool.not_eq_true', List.any_eq_false, beq_iff_eq] at this
+      have hne : ¬ (x : Int) = 9223372036854775807 := this x hx
+      omega
+  · intro hn hl hz0
+    have := hz hn
+    rw [hz0] at this
+    simp [hl] at this
+
+/-- **The tie for C11 (proved).** For a SemVer-family system, the set of every constraint
+`ParseConstraint` accepts is a well-formed set, unless it falls into one of the two finding
+classes. -/
+theorem constraint_set_tie (s : System) (hs : C10.IsGeneric s) : ConstraintSetTie s := by
+  intro b c hp hf hz
+  obtain ⟨h1, h2, h3⟩ := parseConstraint_spec s ((C10.generic_iff s).mp hs) b c hp
+  refine ⟨h2, fun sp hsp => ?_⟩
+  have hinv := h1 sp hsp
+  have hf' := List.all_eq_true.mp hf sp hsp
+  have hz' : s = .nuget → (sp.rank == .empty ||
+      ((match sp.min with | some m => !(m.num.length == 4 && m.num[3]? == some 0) | none => true) &&
+       (sp.rank != .vector ||
+        match sp.max with | some m => !(m.num.length == 4 && m.num[3]? == some 0) | none => true))) = true := by
+    intro hn
+    unfold NoZeroFourth at hz
+    rw [h3, hn] at hz
+    simp only [bne_self_eq_false, Bool.false_or] at hz
+    exact List.all_eq_true.mp hz sp hsp
+  unfold WellFormedSpan SpanOk
+  unfold SpanInv at hinv
+  cases hr : sp.rank with
+  | empty => trivial
+  | unit =>
+    rw [hr] at hinv
+    obtain ⟨m, hm, _, hb⟩ := hinv
+    simp only [hr, hm] at hf' hz'
+    refine ⟨m, hm, bv_isBound s false m hb (fun _ => by simpa using hf') (fun hn => ?_)⟩
+    have := hz' hn
+    simp only [Bool.and_eq_true, Bool.or_eq_true] at this
+    rcases this with h | h
+    · cases h
+    · exact h.1
+  | vector =>
+    rw [hr] at hinv
+    obtain ⟨a, b', ha, hb, ba, bb⟩ := hinv
+    simp only [hr, ha, hb] at hf' hz'
+    refine ⟨a, b', ha, hb, bv_isBound s false a ba (fun _ => by simpa using hf') (fun hn => ?_),
+      bv_isBound s true b' bb (fun h => by cases h) (fun hn => ?_)⟩
+    · have := hz' hn
+      simp only [Bool.and_eq_true, Bool.or_eq_true] at this
+      rcases this with h | h
+      · cases h
+      · exact h.1
+    · have := hz' hn
+      simp only [Bool.and_eq_true, Bool.or_eq_true] at this
+      rcases this with h | h
+      · cases h
+      · rcases h.2 with h2 | h2
+        · simp at h2
+        · exact h2
+
+/-- **C11 for the SemVer-family systems (Default, NPM, Cargo, Go, NuGet, and Composer).** The set
+of every constraint `ParseConstraint` accepts — outside the two recorded finding classes —
+prints to a text that `parseSet` reads back to a set that prints identically and matches the
+same versions under prerelease-inclusive matching. -/
+theorem set_roundtrip (s : System) (hs : C10.IsGeneric s) : SetRoundTripStated s :=
+  set_roundtrip_of_tie s hs (constraint_set_tie s hs)
 
 /-- The hypothesis "non-empty span list" is necessary: the zero `Set{}` prints `{}`, which
 reads back as the one-element list `{<empty>}`. -/
